@@ -381,6 +381,13 @@ func (graph *Graph) OnStabilizationEnd(handler func(context.Context, time.Time, 
 // SetStale sets a node as stale.
 func (graph *Graph) SetStale(gn INode) {
 	n := gn.Node()
+	// A node that is not part of the graph has no height to be queued at: adding it to the
+	// recompute heap would index the heap at HeightUnset. Nothing is lost by leaving it
+	// alone, because a node that is not in the graph has never been computed since it
+	// left it, so it is queued when it becomes necessary again.
+	if n.height == HeightUnset {
+		return
+	}
 	n.setAt = graph.stabilizationNum
 	if gn.Node().heightInRecomputeHeap == HeightUnset {
 		graph.recomputeHeap.add(gn)
